@@ -297,10 +297,39 @@ fn shift<const N: usize>(t: &mut Tape<'_>, o: &mut Obs) -> R {
 // multiplication
 // ---------------------------------------------------------------------------------------
 
+/// operand pair whose bit lengths sum to 64N-1 ..= 64N+2: the product sits right at the boundary between
+/// "fits in N limbs" and "spills into the high half" (with both outcomes possible for the same lengths)
+fn gen_mul_boundary<const N: usize>(t: &mut Tape<'_>) -> ([u64; N], [u64; N]) {
+    let total = 64 * N as u64 - 1 + t.below(4);
+    let la = 1 + t.below(total.min(64 * N as u64) - 1); // 1 ..= min(total, 64N) - 1
+    let lb = (total - la).clamp(1, 64 * N as u64);
+    let mut mk = |len: u64, t: &mut Tape<'_>| -> BigUint {
+        // exactly `len` bits: top bit set, the rest all-ones / zeros / uniform / small
+        let top = pow2(len as usize - 1);
+        let low = match t.below(4) {
+            0 => BigUint::from(0u32),
+            1 => &top - 1u32,
+            2 => BigUint::from(t.below(4)) % &top,
+            _ => big(&t.limbs(N)) % &top,
+        };
+        top + low
+    };
+    let a = mk(la, t);
+    let b = mk(lb, t);
+    (arr::<N>(&a), arr::<N>(&b))
+}
+
 fn mul<const N: usize>(t: &mut Tape<'_>, o: &mut Obs) -> R {
     let m = pow2(64 * N);
-    let (a, ac) = gen_val::<N>(t);
-    let (b, bc) = gen_second::<N>(t, &a);
+    let boundary = t.chance(1, 4);
+    let ((a, ac), (b, bc)) = if boundary {
+        let (a, b) = gen_mul_boundary::<N>(t);
+        ((a, "bitlen-sum-near-width"), (b, "bitlen-sum-near-width"))
+    } else {
+        let (a, ac) = gen_val::<N>(t);
+        let (b, bc) = gen_second::<N>(t, &a);
+        ((a, ac), (b, bc))
+    };
     let (av, bv) = (big(&a), big(&b));
     let (x, y) = (BigInt::<N>::new(a), BigInt::<N>::new(b));
     o.show(|| format!("N={} a={} [{}] b={} [{}]", N, hx(&av), ac, hx(&bv), bc));
